@@ -74,7 +74,7 @@ class C20(Prop):
                   "correspondence harness (differential, only the generated histories); master applies are oracle functions; a "
                   "master calling back into ANOTHER creating object during creator_file, call_out/heart_beat/preload/connect "
                   "contexts, shadows and the uid AVL tree are outside the model")
-    rule = ("cases = corpus + boundary list + seeded random histories of load/clone/seteuid(string|int)/"
+    rule = ("cases = corpus + boundary list + seeded random histories of load (also through call_other / tell_room on a file name)/clone/seteuid(string|int)/"
             "export_uid (also onto itself / onto missing objects)/destruct (also of the master = master reload, also after "
             "get_root_uid()/get_bb_uid() changed their answers; of the simul_efun object)/reload_object, directly, from inside create() "
             "of objects under construction (acyclic scripts, nesting up to 8), through function pointers evaluated by other objects, "
@@ -173,10 +173,22 @@ class C20(Prop):
             out.update(E.run_harness(self.exe, self.confs[key], groups[key], ctx.rundir))
         return out
 
+    # efuns that reach load_object through find_or_load_object with the caller as current_object are harness ops of their
+    # own (`call,<path>` = call_other on a file name, `calla` = inside an array of targets, `tellroom` = tell_room on a file
+    # name); the model knows ONE load: they are compared with (and judged as) its `load` op
+    ALIAS = re.compile(r"(?<![A-Za-z0-9_])(?:call|calla|tellroom),(?=/)")
+
+    def run_model(self, ctx, cases):
+        mapped = [E.Case(c.id, [self.ALIAS.sub("load,", l) if l.startswith(("do ", "script ")) else l for l in c.lines], c.meta)
+                  for c in cases]
+        return E.nvdrive(self.id, "model", E.cases_text(mapped))
+
     def canon(self, lines):
         out = []
         for l in lines:
             l = l.rstrip()
+            if l.startswith("do "):
+                l = self.ALIAS.sub("load,", l)
             if not l or l.startswith("sanitizer "):
                 continue
             if l.startswith("crash"):
@@ -321,6 +333,14 @@ class C20(Prop):
         mk("cf-drop-noroot-simul", ["cfg noroot simul", "pol cf bb drop+s:Backbone", "pol vs m * i:1", "do m seteuid,s:Backbone",
                                     "do m load,/c20/bb/a", "do se seteuid,s:zed", "do se load,/c20/bb/b", "do m seteuid,s:x9",
                                     "do se via,m,clone,c1,/c20/bb/b"])
+        # ---- round 5: the other efuns that load an object by name for their caller
+        mk("load-by-other-efuns", ["do m load,/c20/u1/a", "do u1a call,/c20/u1/b", "do u1a calla,/c20/u1/b", "do u1a tellroom,/c20/u1/b",
+                                   "do u1a seteuid,s:u1", "do u1a call,/c20/u1/b", "do u1a calla,/c20/u1/c", "do u1a tellroom,/c20/u2/a",
+                                   "do u1a call,/c20/u1/nofile", "do u1a calla,/c20/u1/nofile", "do u1a tellroom,/c20/u1/nofile",
+                                   "pol cf u2 err", "do u1a call,/c20/u2/b", "do u1a calla,/c20/u2/b", "pol co odd t:/c20/u2/c",
+                                   "pol cf u2 s:u2", "do u1a tellroom,/c20/odd/v1", "do u2a call,/c20/odd/v2",
+                                   "script /c20/bb/a call,/c20/bb/b;calla,/c20/u1/c", "do u2a via,u1a,call,/c20/bb/a",
+                                   "do u2a call,/c20/bb/c"])
         # ---- round 5: a reloaded master announces ANOTHER root uid (and backbone uid): it gets that uid through add_uid, the uid
         # record of the first root uid is not renamed - every object created before keeps its uid / euid names
         mk("master-reload-other-root", ["do m load,/c20/root/a", "do m load,/c20/bb/a", "do roota seteuid,s:Root", "pol vs * * i:1",
@@ -397,7 +417,7 @@ class C20(Prop):
                 kind = rng.weighted([("load", 8), ("clone", 5), ("seteuid", 6), ("seteuid0", 1), ("export", 2), ("bad", 1)])
                 tgt = rng.choice(later_paths) if later_paths and rng.chance(2, 3) else rng.choice(free)
                 if kind == "load":
-                    ops.append("load,%s" % tgt)
+                    ops.append("%s,%s" % (rng.weighted([("load", 6), ("call", 1), ("calla", 1), ("tellroom", 1)]), tgt))
                 elif kind == "clone":
                     nclone[0] += 1
                     ops.append("clone,c%d,%s" % (nclone[0], tgt))
@@ -510,7 +530,7 @@ class C20(Prop):
             def DO(owner, op):
                 # optionally through a function pointer: <caller> evaluates a function made by <owner>, or (load / clone)
                 # <caller> makes an efun pointer, binds it to <owner> (master valid_bind) and runs it
-                if caller and usebind and op.startswith(("load,", "clone,")):
+                if caller and usebind and op.startswith(("load,", "clone,")):   # (the other loading efuns are not bound)
                     return "do %s bind,%s,%s" % (caller, owner, op)
                 return "do %s via,%s,%s" % (caller, owner, op) if caller else "do %s %s" % (owner, op)
             k = rng.weighted([("seteuid", 10), ("load", 9), ("clone", 9), ("export", 7), ("dest", 2), ("reload", 2),
@@ -527,7 +547,7 @@ class C20(Prop):
                 lines.append(DO(a, "seteuid,i:%d" % rng.choice([1, -1, 5, 0])))
             elif k == "load":
                 p = path()
-                lines.append(DO(a, "load,%s" % p))
+                lines.append(DO(a, "%s,%s" % (rng.weighted([("load", 6), ("call", 1), ("calla", 1), ("tellroom", 1)]), p)))
                 created(a, p)
             elif k == "clone":
                 nclone[0] += 1
@@ -571,7 +591,9 @@ class C20(Prop):
              "master_reloads": 0, "master_reload_refused": 0, "export_onto_self": 0, "nested_ops": 0, "nested_creations": 0, "nested_noeuid_refused": 0, "max_nesting": 0, "backbone_grants": 0, "policy_errors": 0, "nobj": 0, "reloads": 0,
              "crash": 0, "cfg_nobb": 0, "cfg_noroot": 0, "cfg_novb": 0, "cfg_simul": 0, "simul_actor_ops": 0, "simul_dest_error": 0, "cf_callback_drops": 0,
              "bind_ops": 0, "bind_asked": 0, "bind_denied": 0}
+        alias_ops = 0
         for c in cases:
+            alias_ops += sum(len(self.ALIAS.findall(l)) for l in c.lines)
             for f in self.cfg_key(c):
                 h["cfg_" + f] += 1
             cur = None
@@ -650,6 +672,7 @@ class C20(Prop):
                     cur = stack.pop() if stack else None
                 elif t[0] == "crash":
                     h["crash"] += 1
+        h["loads_by_other_efuns_in_cases"] = alias_ops
         return h
 
 
